@@ -310,15 +310,28 @@ func (c *verifC05ccRun) localClose(fk *lnwallet.VerifForkHandle) {
 	closeTx := sum.CloseTx
 	c.confirmed[closeTx.TxHash()] = closeTx
 	res := sum.ContractResolutions.UnsafeFromSome()
+	if !c.localJudge(kind, res) {
+		return
+	}
+	// the same confirmation, dispatched by the party's started chain watcher
+	// on its own (stale) channel state instance (c05cw_test.go).
+	c.cwLocal(closeTx, res)
+}
+
+// localJudge runs the real resolvers over the resolutions of a confirmed local
+// commitment (built directly or dispatched by the chain watcher) and judges
+// every input they offer. True when the close was judged to the end.
+func (c *verifC05ccRun) localJudge(kind string, res lnwallet.ContractResolutions) bool {
+	e := c.e
 	byOut := verifC05ccByOutput(c.st.LocalCommitment.Htlcs)
 	ct := c.st.ChanType
 
 	if !c.commitAndAnchor(kind, res.CommitResolution, res.AnchorResolution) {
-		return
+		return false
 	}
 	if res.HtlcResolutions == nil {
 		c.note(kind)
-		return
+		return true
 	}
 	for k := range res.HtlcResolutions.OutgoingHTLCs {
 		or := res.HtlcResolutions.OutgoingHTLCs[k]
@@ -327,19 +340,19 @@ func (c *verifC05ccRun) localClose(fk *lnwallet.VerifForkHandle) {
 		if h == nil || h.Incoming {
 			e.Viol("resolver_htlc_timeout_valid", c.key(kind)+":wrong-output",
 				fmt.Sprintf("outgoing resolution for output %d has no offered HTLC", hp.Index))
-			return
+			return false
 		}
 		what := fmt.Sprintf("offered htlc %d", h.HtlcIndex)
 		r := newTimeoutResolver(or, lnwallet.VerifC05Height, *h, ct, c.cfg)
 		if or.SignDetails == nil {
 			ins, ok := c.launch(kind, what, r)
 			if !ok {
-				return
+				return false
 			}
 			if len(ins) != 0 {
 				e.Viol("resolver_launch_error", c.key(kind)+":legacy-inputs",
 					"legacy timeout resolver offered inputs to the sweeper")
-				return
+				return false
 			}
 			c.vc.Count("legacy_second_level_to_nursery", 1)
 			c.nOut++
@@ -347,23 +360,23 @@ func (c *verifC05ccRun) localClose(fk *lnwallet.VerifForkHandle) {
 		}
 		inp, ok := c.one(kind, what, r)
 		if !ok {
-			return
+			return false
 		}
 		agg, ok := c.spend("resolver_htlc_timeout_valid", kind,
 			what+" through the re-signed HTLC-timeout tx", inp)
 		if !ok {
-			return
+			return false
 		}
 		if lh, ok := e.VerifC05Ledger(c.who, h); ok && agg.LockTime != lh.Expiry {
 			e.Viol("htlc_tx_locktime", c.key(kind)+":resolver",
 				fmt.Sprintf("re-signed HTLC-timeout tx for %s has locktime %d, HTLC expiry %d", what, agg.LockTime, lh.Expiry))
-			return
+			return false
 		}
 		c.negative("timeout_tx_locktime_minus_1", inp, false, true)
 		r2 := newTimeoutResolver(or, lnwallet.VerifC05Height, *h, ct, c.cfg)
 		r2.outputIncubating = true
 		if !c.secondStage(kind, what, r2, hp, agg) {
-			return
+			return false
 		}
 		c.nOut++
 	}
@@ -374,7 +387,7 @@ func (c *verifC05ccRun) localClose(fk *lnwallet.VerifForkHandle) {
 		if h == nil || !h.Incoming {
 			e.Viol("resolver_htlc_success_valid", c.key(kind)+":wrong-output",
 				fmt.Sprintf("incoming resolution for output %d has no received HTLC", hp.Index))
-			return
+			return false
 		}
 		lh, ok := e.VerifC05Ledger(c.who, h)
 		if !ok {
@@ -388,12 +401,12 @@ func (c *verifC05ccRun) localClose(fk *lnwallet.VerifForkHandle) {
 		if ir.SignDetails == nil {
 			ins, ok := c.launch(kind, what, r)
 			if !ok {
-				return
+				return false
 			}
 			if len(ins) != 0 {
 				e.Viol("resolver_launch_error", c.key(kind)+":legacy-inputs",
 					"legacy success resolver offered inputs to the sweeper")
-				return
+				return false
 			}
 			c.vc.Count("legacy_second_level_to_nursery", 1)
 			c.nIn++
@@ -401,21 +414,22 @@ func (c *verifC05ccRun) localClose(fk *lnwallet.VerifForkHandle) {
 		}
 		inp, ok := c.one(kind, what, r)
 		if !ok {
-			return
+			return false
 		}
 		agg, ok := c.spend("resolver_htlc_success_valid", kind,
 			what+" through the re-signed HTLC-success tx", inp)
 		if !ok {
-			return
+			return false
 		}
 		r2 := newSuccessResolver(ir, lnwallet.VerifC05Height, *h, ct, c.cfg)
 		r2.outputIncubating = true
 		if !c.secondStage(kind, what, r2, hp, agg) {
-			return
+			return false
 		}
 		c.nIn++
 	}
 	c.note(kind)
+	return true
 }
 
 func (c *verifC05ccRun) remoteClose(pending bool) {
@@ -475,14 +489,28 @@ func (c *verifC05ccRun) remoteClose(pending bool) {
 		e.Viol("remote_close_error", c.key(kind), fmt.Sprintf("NewUnilateralCloseSummary: %v", err))
 		return
 	}
+	if !c.remoteJudge(kind, sum, rc) {
+		return
+	}
+	// the same confirmation, dispatched by the party's started chain watcher
+	// on its own (stale) channel state instance (c05cw_test.go).
+	c.cwRemote(kind, peerTx, sum, rc)
+}
+
+// remoteJudge: as localJudge for a confirmed commitment of the peer.
+func (c *verifC05ccRun) remoteJudge(kind string, sum *lnwallet.UnilateralCloseSummary,
+	rc channeldb.ChannelCommitment) bool {
+
+	e := c.e
+	st := c.st
 	byOut := verifC05ccByOutput(rc.Htlcs)
 	ct := st.ChanType
 	if !c.commitAndAnchor(kind, sum.CommitResolution, sum.AnchorResolution) {
-		return
+		return false
 	}
 	if sum.HtlcResolutions == nil {
 		c.note(kind)
-		return
+		return true
 	}
 	for k := range sum.HtlcResolutions.OutgoingHTLCs {
 		or := sum.HtlcResolutions.OutgoingHTLCs[k]
@@ -491,22 +519,22 @@ func (c *verifC05ccRun) remoteClose(pending bool) {
 		if h == nil || h.Incoming {
 			e.Viol("resolver_htlc_timeout_valid", c.key(kind)+":wrong-output",
 				fmt.Sprintf("outgoing resolution for output %d has no offered HTLC", hp.Index))
-			return
+			return false
 		}
 		what := fmt.Sprintf("offered htlc %d", h.HtlcIndex)
 		r := newTimeoutResolver(or, lnwallet.VerifC05Height, *h, ct, c.cfg)
 		inp, ok := c.one(kind, what, r)
 		if !ok {
-			return
+			return false
 		}
 		tx, ok := c.spend("resolver_htlc_timeout_valid", kind, what+" after its expiry", inp)
 		if !ok {
-			return
+			return false
 		}
 		if lh, ok := e.VerifC05Ledger(c.who, h); ok && tx.LockTime != lh.Expiry {
 			e.Viol("htlc_tx_locktime", c.key(kind)+":resolver",
 				fmt.Sprintf("timeout sweep of %s has locktime %d, HTLC expiry %d", what, tx.LockTime, lh.Expiry))
-			return
+			return false
 		}
 		c.negative("remote_timeout_locktime_minus_1", inp, false, true)
 		c.nOut++
@@ -518,7 +546,7 @@ func (c *verifC05ccRun) remoteClose(pending bool) {
 		if h == nil || !h.Incoming {
 			e.Viol("resolver_htlc_success_valid", c.key(kind)+":wrong-output",
 				fmt.Sprintf("incoming resolution for output %d has no received HTLC", hp.Index))
-			return
+			return false
 		}
 		lh, ok := e.VerifC05Ledger(c.who, h)
 		if !ok {
@@ -530,14 +558,15 @@ func (c *verifC05ccRun) remoteClose(pending bool) {
 		r := newSuccessResolver(ir, lnwallet.VerifC05Height, *h, ct, c.cfg)
 		inp, ok := c.one(kind, what, r)
 		if !ok {
-			return
+			return false
 		}
 		if _, ok := c.spend("resolver_htlc_success_valid", kind, what+" with its preimage", inp); !ok {
-			return
+			return false
 		}
 		c.nIn++
 	}
 	c.note(kind)
+	return true
 }
 
 func (c *verifC05ccRun) note(kind string) {
@@ -563,6 +592,9 @@ func (c *verifC05ccRun) note(kind string) {
 func TestVerifC05CC(t *testing.T) {
 	vc := lnwallet.VerifStart(t, "C05", "resolvers")
 	defer vc.Finish()
+	defer verifCwInstallLog()()
+	lnwallet.VerifC05SetOnLoad(func(e *lnwallet.VerifE1) { verifC05cwLoad(t, vc, e) })
+	defer lnwallet.VerifC05SetOnLoad(nil)
 	total := vc.N(200, 5000)
 	for i := 0; i < total; i++ {
 		if !vc.Mine(i) {
